@@ -1,0 +1,9 @@
+//go:build !verif
+
+package packet
+
+// No-op counterparts of the verification hooks (see verif_on.go); inlined away.
+
+func verifEmit(ev string, kv ...interface{}) {}
+
+func verifGate(name string) {}
